@@ -208,6 +208,28 @@ let do_rd line =
     Buffer.contents out
   | _ -> "badcase"
 
+(* ---- codec names (C15) ----  nm t <name> | nm e <name> | nm T <type> | nm E <type> *)
+let ascii_of_char c =
+  let n = Char.code c in let b i = (n lsr i) land 1 = 1 in
+  K.Ascii (b 0, b 1, b 2, b 3, b 4, b 5, b 6, b 7)
+let char_of_ascii (K.Ascii (b0, b1, b2, b3, b4, b5, b6, b7)) =
+  let v b i = if b then 1 lsl i else 0 in
+  Char.chr (v b0 0 + v b1 1 + v b2 2 + v b3 3 + v b4 4 + v b5 5 + v b6 6 + v b7 7)
+let coq_string_of (s : string) : K.string =
+  let rec go i = if i >= String.length s then K.EmptyString else K.String (ascii_of_char s.[i], go (i + 1)) in go 0
+let string_of_coq (l : K.string) : string =
+  let b = Buffer.create 16 in
+  let rec go = function K.EmptyString -> () | K.String (c, r) -> Buffer.add_char b (char_of_ascii c); go r in
+  go l; Buffer.contents b
+let do_nm args = match args with
+  | ["t"; name] -> (match K.tr_get_type (coq_string_of name) with Some z -> "ok " ^ sz z | None -> "err")
+  | ["t"] -> (match K.tr_get_type K.EmptyString with Some z -> "ok " ^ sz z | None -> "err")
+  | ["e"; name] -> (match K.en_get_type (coq_string_of name) with Some z -> "ok " ^ sz z | None -> "err")
+  | ["e"] -> (match K.en_get_type K.EmptyString with Some z -> "ok " ^ sz z | None -> "err")
+  | ["T"; t] -> (match K.tr_get_name (zs t) with Some n -> "ok " ^ string_of_coq n | None -> "err")
+  | ["E"; t] -> (match K.en_get_name (zs t) with Some n -> "ok " ^ string_of_coq n | None -> "err")
+  | _ -> "badcase"
+
 let dispatch line =
   match words line with
   | [] -> ""
@@ -216,6 +238,7 @@ let dispatch line =
   | "ho" :: _ -> do_ho line
   | "wr" :: _ -> do_wr line
   | "rd" :: _ -> do_rd line
+  | "nm" :: args -> do_nm args
   | k :: _ -> "unknown " ^ k
 
 let () =
